@@ -7,6 +7,9 @@ import Req.Client.EarlyResponse
 import Req.Client.UploadReader
 import Req.Client.ProgressClock
 import Req.Client.SetBody
+import Req.Client.ResponseStages
+import Req.Client.BodyTable
+import Req.Client.Utf8
 /-! Driver lanes of C17. -/
 namespace Req.Driver.L.C17
 open Req.Proto
@@ -166,9 +169,8 @@ def showKind : Req.Body.Kind → String
   | .marshalJson => "json" | .marshalXml => "xml" | .raw => "raw"
 
 /-- `c17body method allowGet multipart ck cc cv rk rc rv ordered boundary f1..f6 marshal json xml body reqCT clientCT sniffed` -/
-def laneBody : List String → String
-  | [m, ag, mp, ck, cc, cv, rk, rc, rv, ord, b, f1, f2, f3, f4, f5, f6, mf, js, xm, body, rct, cct, sn] =>
-    let r : Option String := do
+def decodeCfg : List String → Option Req.Body.Cfg
+  | [m, ag, mp, ck, cc, cv, rk, rc, rv, ord, b, f1, f2, f3, f4, f5, f6, mf, js, xm, body, rct, cct, sn] => do
       let m ← decodeHex m
       let ck ← decodeList ck; let cc ← decodeNatList cc; let cv ← decodeList cv
       let rk ← decodeList rk; let rc ← decodeNatList rc; let rv ← decodeList rv
@@ -183,17 +185,41 @@ def laneBody : List String → String
       let rct ← decodeHex rct
       let cct ← decodeHex cct
       let sn ← decodeHex sn
-      let cfg : Req.Body.Cfg := {
+      pure {
         method := toStr m, allowGet := ag == "1", multipart := mp == "1",
         clientForm := cform, reqForm := rform, ordered := ord, files := files, boundary := b,
         marshal := if mf == "1" then some (js, xm) else none,
         body := body, reqCT := rct, clientCT := cct, sniffed := sn }
-      match Req.Body.dispatch cfg with
-      | none => pure "err"
-      | some o =>
-        pure ((match o.body with | none => "nil" | some x => encodeHex x) ++ " " ++ encodeHex o.ct)
-    r.getD "bad-op"
-  | _ => "bad-op"
+  | _ => none
+
+def laneBody (args : List String) : String :=
+  match decodeCfg args with
+  | none => "bad-op"
+  | some cfg =>
+    match Req.Body.dispatch cfg with
+    | none => "err"
+    | some o => (match o.body with | none => "nil" | some x => encodeHex x) ++ " " ++ encodeHex o.ct
+
+/-- `c17bodytable <the arguments of c17body>` → `kind=<k> ct=<hex> parser=<p>` read off the DECISION
+TABLE (`Body.kindTable`, `Body.expectedCT`) — not off `dispatch` — and the parser a standard
+server picks for that Content-Type (`Body.serverParser`); `err` when the call fails. -/
+def laneBodyTable (args : List String) : String :=
+  match decodeCfg args with
+  | none => "bad-op"
+  | some cfg =>
+    match Req.Body.dispatch cfg with
+    | none => "err"
+    | some _ =>
+      let k := Req.Body.kindTable cfg
+      let ct := Req.Body.expectedCT cfg k
+      let ks := match k with
+        | .none => "none" | .multipart => "multipart" | .form => "form"
+        | .marshalJson => "marshal-json" | .marshalXml => "marshal-xml" | .raw => "raw"
+      let ps := match Req.Body.serverParser ct with
+        | .urlencoded => "urlencoded"
+        | .multipart b => "multipart:" ++ encodeHex b
+        | .other => "other"
+      s!"kind={ks} ct={encodeHex ct} parser={ps}"
 
 /-- `c17wire …` = `c17body …` as seen on the wire: an empty body and no body look the same. -/
 def laneWire (args : List String) : String :=
@@ -394,7 +420,43 @@ def laneDlHops : List String → String
     | _, _ => "bad-op"
   | _ => "bad-op"
 
+/-- `c17dlstages <content decoding 0/1> <wrapper 0/1> <charset decoding 0/1> <dump 0/1> <wire size>
+<size after content decoding> <size after charset decoding>` → `last=<n|-> out=<n>`: the stack
+`handleResponseBody` builds for these options (`Stages.stackOf`), run on a wire body of the given
+size with decoders that produce bodies of the given sizes; `last` = the final argument of the
+download callback once the body has been read and closed (the observed bytes in one read, clock
+never elapsing: `Stages.reports`), `out` = the number of bytes the caller receives. -/
+def laneDlStages : List String → String
+  | [cd, w, cs, d, wire, dec, tr] =>
+    match cd.toNat?, w.toNat?, cs.toNat?, d.toNat?, wire.toNat?, dec.toNat?, tr.toNat? with
+    | some cd, some w, some cs, some d, some wire, some dec, some tr =>
+      let o : Req.Stages.Opts := ⟨cd == 1, w == 1, cs == 1, d == 1⟩
+      let c : Req.Stages.Codec := ⟨fun _ => List.replicate dec 0, fun _ => List.replicate tr 0⟩
+      let wb : Req.Stages.Bytes := List.replicate wire 0
+      let st := Req.Stages.stackOf o
+      let last := match Req.Stages.observed c st wb with
+        | none => "-"
+        | some b => match (Req.Stages.reports [⟨b.length, false, false⟩]).getLast? with
+          | some x => toString x
+          | none => "-"
+      s!"last={last} out={(Req.Stages.deliver c st wb).length}"
+    | _, _, _, _, _, _, _ => "bad-op"
+  | _ => "bad-op"
+
+/-- `c17utf8 <code points>` → the UTF-8 encoding (`Multipart.utf8Enc`) and its quoted form. -/
+def laneUtf8 : List String → String
+  | [cps] =>
+    match decodeNatList cps with
+    | some l =>
+      let b := l.flatMap Req.Multipart.utf8Enc
+      encodeHex b ++ " " ++ encodeHex (Req.Multipart.quote b)
+    | none => "bad-op"
+  | _ => "bad-op"
+
 def lanes : List (String × (List String → String)) := [
+  ("c17utf8", laneUtf8),
+  ("c17dlstages", laneDlStages),
+  ("c17bodytable", laneBodyTable),
   ("c17dlhops", laneDlHops),
   ("c17setbody", laneSetBody),
   ("c17progwt", laneProgWT),
